@@ -44,7 +44,7 @@ Reset == /\ Ev("Reset")
          /\ allow' = S.allow /\ initLen' = S.n /\ initTomb' = S.tomb /\ ws' = 1..S.nw
          /\ Logged
          /\ match' = [w \in Writers |-> 0] /\ ph' = [w \in Writers |-> <<>>] /\ att' = [w \in Writers |-> 0] /\ loc' = [w \in Writers |-> NoLoc]
-         /\ dso' = [w \in Writers |-> 0] /\ uo' = [w \in Writers |-> <<>>] /\ dropped' = {} /\ dev' = {} /\ top' = [seq |-> S.seq, rev |-> S.cur] /\ lost' = {} /\ backIdx' = {}
+         /\ dso' = [w \in Writers |-> 0] /\ uo' = [w \in Writers |-> <<>>] /\ dev' = {} /\ top' = [seq |-> S.seq, rev |-> S.cur] /\ lost' = {} /\ backIdx' = {}
          /\ feed' = <<>> /\ quiesced' = FALSE
          /\ docSeqs' = <<>> /\ onDoc' = SetOf(S.iseq) /\ initSeq' = [i \in 1..Len(S.iseq) |-> S.iseq[i]]
          /\ hist' = <<>> /\ bi' = S.beh /\ diverged' = FALSE
@@ -95,7 +95,7 @@ CNext == CReset \/ CAny \/ CDiverge \/ CSkip
 CSpec == TInit /\ [][CNext]_tvars
 
 XNames == {"X_NoLostAck", "X_OwnSequence", "X_OneChildPerParent", "LosersLeaveNoTrace", "X_RefusalsAreConflicts", "X_FeedAnnouncesFinal",
-           "TypeOK", "SeqSane", "NotYetWritten", "CurIsWinner", "AccountedModuloDrop", "DevSane"}
+           "TypeOK", "SeqSane", "NotYetWritten", "CurIsWinner", "SequencesAccounted", "DevSane"}
 XFailing == {n \in XNames :
                ~CASE n = "X_NoLostAck" -> X_NoLostAck
                   [] n = "X_OwnSequence" -> X_OwnSequence
@@ -107,7 +107,7 @@ XFailing == {n \in XNames :
                   [] n = "SeqSane" -> SeqSane
                   [] n = "NotYetWritten" -> NotYetWritten
                   [] n = "CurIsWinner" -> CurIsWinner
-                  [] n = "AccountedModuloDrop" -> AccountedModuloDrop
+                  [] n = "SequencesAccounted" -> SequencesAccounted
                   [] n = "DevSane" -> DevSane}
 (* recorded once per behaviour, at the end of a run that conformed all the way: the named deviations the real code took,
    what they overwrote, the sequences the real run leaked, and which relaxed / auxiliary predicates fail on the real state *)
@@ -115,7 +115,7 @@ CollectC ==
   \/ bi < 0
   \/ /\ (~diverged \/ TLCSet(4, TLCGet(4) \cup {[b |-> bi, line |-> l - 1]}))
      /\ (~(quiesced /\ ~diverged) \/
-           TLCSet(3, TLCGet(3) \cup {[b |-> bi, dev |-> dev, lost |-> lost, leaked |-> Leaked, dropped |-> dropped, xfail |-> XFailing]}))
+           TLCSet(3, TLCGet(3) \cup {[b |-> bi, dev |-> dev, lost |-> lost, leaked |-> Leaked, xfail |-> XFailing]}))
 CProgress == Mark(l) /\ CollectC
 CAccept == PrintHWM /\ PrintT(<<"CCONF", ToJson(TLCGet(3))>>) /\ PrintT(<<"CDIV", ToJson(TLCGet(4))>>)
 =============================================================================
